@@ -37,7 +37,7 @@ def run_shard(ctx, spec):
     else:
         for k in range(spec['n']):
             if k % 3 == 2:
-                ex.jumpoff_scenario(rnd.choice([2, 3, 3, 4]), max_jo=3)
+                ex.jumpoff_scenario(rnd.choice([2, 3, 3, 4]), max_jo=rnd.choice([3, 4]), passes=(k % 2 == 1))
             else:
                 ex.complete(rnd.choice([2, 3, 3, 4, 5, 6]), max_reg=rnd.choice([2, 3, 4, 7, 9]), max_jo=3)
     ctx.info['states'] = ex.states
